@@ -411,7 +411,7 @@ fn c04_q_group_store_2() {
 #[cfg_attr(kani, kani::proof)]
 #[cfg_attr(kani, kani::unwind(18))]
 #[cfg_attr(not(kani), test)]
-fn c04_x_group_store_full_eviction() {
+fn c04_t_group_store_full_eviction() {
     let mut st = any_store(MAX_GROUP_CTR_ENTRIES);
     let gi = any_usize();
     assume(gi < MAX_GROUP_CTR_ENTRIES);
